@@ -142,7 +142,7 @@ PROPS["C03"] = {
 }
 PROPS["C10"] = {
     "title": "Context-dependent literal widths follow the types declared earlier",
-    "units": {"quick": ["parser_core", "parser_protocol"], "thorough": ["parser_core", "parser_protocol"]},
+    "units": {"quick": ["parser_core", "parser_protocol", "tracker"], "thorough": ["parser_core", "parser_protocol", "tracker"]},
     "only_items": {"parser_core": [r"parse_literal", r"parse_operands", r"parse_inst"], "parser_protocol": [r"Parser::(parse|new)$"]},
     "level": "proof",
     "technique": "Verus contract on the extracted parse_literal: words consumed and operand variant as a function of the tracker's abstract map only; fresh tracker per parser; tracker semantics by bounded Kani check",
@@ -150,12 +150,12 @@ PROPS["C10"] = {
     "explanation": "parse_literal is proved to consume one word for Integer 8/16/32, Float 16/32 and unknown types, two words low-first for 64 bits, "
                    "and to return TypeUnsupported(offset, index) for every other width, as a function of resolve(type_id) alone; parse_operands passes the "
                    "result type (OpConstant/OpSpecConstant) or operand 0 (OpSwitch selector), both protected by table facts proved per row.",
-    "assumptions": ["TypeTracker::{new, track, resolve} semantics (HashMap + closures): abstract map assumed here"],
+    "assumptions": [],
 }
 PROPS["C04"] = {
     "title": "Parsing, loading, assembling and disassembling never panic on any input",
-    "units": {"quick": ["decoder", "parser_core", "parser_protocol", "loader", "disas_guard"],
-              "thorough": ["decoder", "parser_core", "parser_protocol", "loader", "disas_guard", "table_core"]},
+    "units": {"quick": ["decoder", "parser_core", "parser_protocol", "loader", "disas_guard", "tracker", "assemble"],
+              "thorough": ["decoder", "parser_core", "parser_protocol", "loader", "disas_guard", "tracker", "assemble", "table_core"]},
     "level": "proof",
     "technique": "aggregation of the panic-class obligations (index, slice, unwrap/expect, assert, panic!(), overflow, termination) Verus generates at the real source lines of decoder, parser, loader and disas_constant",
     "design_ref": "DESIGN.md §4 C04",
